@@ -77,7 +77,8 @@ def check(text: str, backend: str, evs, labels=(), q: Query = None):
         raise Violation("crash", f"job crashed: {r.error}", rep)
     ref = linq.evaluate(text, sch, evs)
     if len(ref) != len(r.out["events"]):
-        raise Violation("driver", "event count mismatch", rep)
+        raise Violation("events-not-processed", f"the job processed {len(r.out['events'])} of the {len(ref)} input events (limit in the rendered job configuration: "
+                        f"{enginea.job_event_limit(r.pkg.files)})", rep)
     for k, (rf, ob) in enumerate(zip(ref, r.out["events"])):
         m = enginea.compare_event(rf, ob)
         if m:
@@ -107,6 +108,22 @@ def worker(payload):
         stats.case(q.text, (not amb) and is_nontrivial(q, evs, ref), labels, {"backend": backend, "query": q.text[-500:], "n_events": len(evs)})
 
     hyp_search(body, case_strategy(backend), max_examples=n, seed=seed, stats=stats, deadline=deadline, key_fn=case_key, shrink_budget=60)
+
+    # one long job per shard: every input event is processed, however many there are
+    from vf.gen.query import dataset_text
+    from vf.model.events import events_strategy
+
+    sch = standard_schema(backend)
+    col = [c for c in sch.colls if not c.singleton][0]
+    long_text = f"Select({dataset_text(sch)}, lambda e: e.{col.accessor}({col.banks[0]!r}).Count())"
+
+    def long_body(evs):
+        ref = check(long_text, backend, evs, {"long-job"})
+        stats.case(jdump(["long-job", backend, [e.to_json() for e in evs]]), len({jdump(r["eager"]) for r in ref}) >= 2, ["long-job", f"backend={backend}"],
+                   {"backend": backend, "query": long_text[-80:], "n_events": len(evs)})
+
+    hyp_search(long_body, events_strategy(sch, [(col.accessor, col.banks[0])], n_min=24, n_max=40), max_examples=1, seed=derive_seed(seed, "long"), stats=stats, deadline=deadline,
+               shrink=False, max_rounds=1)
     return stats
 
 
